@@ -225,7 +225,56 @@ func repeatCases(g *Gen, o *Out) {
 	}
 }
 
+// prefixCutCases: for every option combination that changes how a length prefix is read
+// (ZeroLengthSectionAsEOF on/off, trusted on/off) and every reader, cut a small archive whose sections
+// have 1-, 2- and 3-byte length prefixes at every offset inside and next to each prefix, and inside
+// the header's prefix. A cut inside a prefix is never a clean end, whatever the options.
+func prefixCutCases(g *Gen, o *Out) {
+	bs := []Blk{g.BlockWith(g.bytes(20)), g.BlockWith(g.bytes(150 + g.pick(60))), g.BlockWith(g.bytes(16400 + g.pick(50))), g.BlockWith(g.bytes(3))}
+	o.HashBlocks(bs)
+	r := []cid.Cid{bs[0].C}
+	for _, v1 := range []bool{true, false} {
+		arch := writeAll(r, bs, v1)
+		ver, base, end := 1, 0, len(arch)
+		if !v1 {
+			ver = 2
+			base = int(leU64(arch[27:35]))
+			end = base + int(leU64(arch[35:43]))
+		}
+		// offsets of every length prefix in the payload window
+		var cuts []int
+		p := base
+		for p < end {
+			l, k := uvarintAt(arch, p)
+			for d := -1; d <= k+1; d++ {
+				cuts = append(cuts, p+d)
+			}
+			p += k + int(l)
+		}
+		desc := fmt.Sprintf("roots=%s blocks=%s ver=%d dp=0 arch=%s", rootsArg(r), blocksStr(bs), ver, hex.EncodeToString(arch))
+		for _, z := range []bool{false, true} {
+			for _, tr := range []bool{false, true} {
+				ro := defaultReadOpts()
+				ro.zeroEOF, ro.trusted = z, tr
+				for _, rd := range scanReaders {
+					if rd == "v1" && ver == 2 {
+						continue
+					}
+					for _, k := range cuts {
+						if k < 0 || k >= end {
+							continue
+						}
+						o.Line(fmt.Sprintf("mut rd=%s %s %s trunc=%d", rd, ro, desc, k), runReader(rd, ro, arch[:k])+" archok=1")
+						o.Count("prefixcut/" + rd)
+					}
+				}
+			}
+		}
+	}
+}
+
 func famC02(g *Gen, o *Out, n int, thorough bool) {
+	prefixCutCases(g, o)
 	bigSectionCases(g, o, thorough)
 	hashKindCases(g, o)
 	repeatCases(g, o)
